@@ -154,6 +154,7 @@ struct ExModel {
 	// ---- text input for a/i/c/rs
 	bool starved = false;	// a text block was needed but the input ended before its "."
 	bool pending_soft = false, murky = false;	// see exec()
+	bool skip_hazard = false;	// see the global loop in exec()
 	bool overflow = false;	// a global made the buffer grow beyond what the (linear-time) model is meant for
 	std::vector<std::string> read_block()
 	{
@@ -236,6 +237,41 @@ struct ExModel {
 		for (int k = pos; k < len; k++) out += enc1(s[(size_t) k]);
 		if (alt_out && !have_alt) alt_out->clear();
 		return any;
+	}
+
+	// splits a global's command list at the | separators the way the editor's argument reader does:
+	// g, v and ! take the rest of the line, s keeps its two delimited parts (backslash escapes), every
+	// other command ends at the first |
+	static std::vector<std::string> split_bar(const std::string &s)
+	{
+		std::vector<std::string> parts;
+		size_t i = 0;
+		while (i <= s.size()) {
+			size_t st = i;
+			while (i < s.size() && (strchr("0123456789.,;$+-% \t", s[i]) != nullptr)) i++;
+			if (i < s.size() && (s[i] == '/' || s[i] == '?' || s[i] == '\'')) { parts.push_back(s.substr(st)); break; }	// search / mark addresses: not split
+			std::string cmd;
+			if (i < s.size() && s[i] == '!') cmd = s[i++];
+			else while (i < s.size() && isalpha((unsigned char) s[i])) cmd += s[i++];
+			if (cmd == "g" || cmd == "v" || cmd == "!" || cmd == "r" || cmd == "w" || cmd == "a" || cmd == "i" || cmd == "c") { parts.push_back(s.substr(st)); break; }
+			while (i < s.size() && (s[i] == ' ' || s[i] == '\t')) i++;
+			if (cmd == "s" && i < s.size() && s[i] != '|' && s[i] != '\\' && s[i] != '"') {
+				char d = s[i++];
+				int cnt = 2;
+				while (i < s.size() && cnt > 0) {
+					if (s[i] == d) cnt--;
+					if (s[i] == '\\' && i + 1 < s.size()) i++;
+					i++;
+				}
+			}
+			while (i < s.size() && s[i] != '|') { if (s[i] == '\\' && i + 1 < s.size()) i++; i++; }
+			parts.push_back(s.substr(st, i - st));
+			if (i >= s.size()) break;
+			i++;	// the |
+			if (i >= s.size()) break;
+		}
+		if (parts.empty()) parts.push_back(s);
+		return parts;
 	}
 
 	// ---- one command line (without the trailing newline); text blocks come from `input`
@@ -438,16 +474,30 @@ struct ExModel {
 			std::vector<long> ids;
 			if (n() > 0) for (int i = a; i <= b; i++) ids.push_back(ln[(size_t) i - 1].id);
 			gdepth++;
+			size_t idx = 0;
 			for (long id : ids) {
+				idx++;
 				if (n() > 3000) { overflow = true; break; }	// (the check abandons such a plan: see ex.cpp)
 				int at = find_id(id);
 				if (!at) continue;			// the line no longer exists
 				if (line_matches(gp, ln[(size_t) at - 1].text) == inv) continue;
 				if (gdepth == 1) visited.push_back(id);
 				cur = at;
-				ExResult r1 = exec(sub);
-				R.out += r1.out;
-				if (!r1.out_defined) R.out_defined = false;
+				// the command list: commands separated by | run one after the other, each from where the
+				// one before left the current line; the list fails iff its last command does
+				ExResult r1;
+				for (const std::string &part : split_bar(sub)) {
+					r1 = exec(part);
+					R.out += r1.out;
+					if (!r1.out_defined) R.out_defined = false;
+				}
+				// known finding (known_findings.txt): the editor resumes its scan at the lower of the visited
+				// line's index and the current line's; a list that deletes above the visited line and then
+				// moves the current line down leaves a line still to be visited above that point
+				{
+					int resume = std::min(at, cur);
+					for (size_t k = idx; k < ids.size(); k++) { int pos = find_id(ids[k]); if (pos && pos < resume) skip_hazard = true; }
+				}
 				if (r1.rejected && !r1.soft) break;	// an error in the command list ends the global (ex convention)
 			}
 			gdepth--;
